@@ -562,7 +562,8 @@ def _judge(case, R):
                 tr = _pr_trace(case)
                 first = tr.first_below(tol, mi)
                 upto = min(mi, len(tr.changes)) if first is None else first
-                placed = all(abs(tr.changes[k] - tol) > 1e-6 * tol for k in range(upto))
+                # (tol >= 1e-10: far above the rounding noise of a sweep, about 1e-16 x the largest score)
+                placed = tol >= 1e-10 and all(abs(tr.changes[k] - tol) > 1e-6 * tol for k in range(upto))
                 if placed:
                     want = "OPTIMAL" if first is not None else "MAX_ITER"
                     if ref["status"] != want:
@@ -1166,16 +1167,20 @@ def run(ctx: Ctx):
             scopes += rows
         # big units first (better packing); deterministic order
         units.sort(key=lambda u: (-(exhaustive_size(u["fn"], u["n"], u["L"], u.get("W")) // u["nshards"] if u["kind"] == "exhaustive" else u["count"]), json.dumps(u, sort_keys=True)))
-        results, hung, timed_out = _run_pool(units, tmp, True, cap_s=1200 if ctx.quick else 7200)
         # history programs and deep cases: a pool of its own whose workers never call the library themselves (every
-        # program / case runs in a child process of a worker that has only imported the overlay package)
+        # program / case runs in a child process of a worker that has only imported the overlay package).  It runs
+        # FIRST: its workers fork once per program, and a fork costs page-table copies proportional to the size of
+        # this process, which grows by gigabytes while the results of the big spaces are collected.
         units_h = []
+        rows_h = []
         for planner in (R2.plan_history, R2.plan_deep):
             u_new, rows = planner(ctx.tier, ctx.seed)
             units_h += u_new
-            scopes += rows
+            rows_h += rows
         units_h.sort(key=lambda u: (-u["count"], json.dumps(u, sort_keys=True)))
         res_h, hung_h, to_h = _run_pool(units_h, tmp, True, cap_s=1200 if ctx.quick else 7200)
+        results, hung, timed_out = _run_pool(units, tmp, True, cap_s=1200 if ctx.quick else 7200)
+        scopes += rows_h
         results += res_h
         hung += hung_h
         timed_out = timed_out or to_h
